@@ -59,14 +59,6 @@ def OpOk : Op → Prop
   | .advance _ => True
   | .sweep => True
 
-/-- D23's hypothesis: whenever the overlap check runs, every installed flow of the new flow's rank that overlaps it is
-    comparable with it (one subsumes the other).  Outside it the code accepts what the standard refuses (`overlap_defect`). -/
-def OverlapAgree (s : State) : Op → Prop
-  | .flowMod fm =>
-    fm.flags.testBit FF_CHECK_OVERLAP = true → ∀ e ∈ s.table, (absEntry e).rank = (newFlow s.now fm).rank →
-      overlaps e.data.wire fm.mtch = true → subsumes fm.mtch e.data.wire = true ∨ subsumes e.data.wire fm.mtch = true
-  | _ => True
-
 theorem init_inv (now mx : Nat) : Inv (init now mx) :=
   ⟨List.Pairwise.nil, fun _ h => by simp [init] at h, Nat.zero_le _⟩
 
@@ -272,9 +264,7 @@ theorem addBase_abs_modify (s : State) (fm : FlowModMsg) (strict : Bool) (hc : f
   have := hnone f hf
   simp [not_same_of_not_selected fm.mtch fm.priority strict f (by simpa using this)]
 
-theorem overlap_abs (s : State) (fm : FlowModMsg) (hi : Inv s) (hm : MsgOk fm) (he : fm.flags.testBit FF_EMERG = false)
-    (hv : ∀ e ∈ s.table, (absEntry e).rank = (newFlow s.now fm).rank → overlaps e.data.wire fm.mtch = true →
-      subsumes fm.mtch e.data.wire = true ∨ subsumes e.data.wire fm.mtch = true) :
+theorem overlap_abs (s : State) (fm : FlowModMsg) (hi : Inv s) (hm : MsgOk fm) (he : fm.flags.testBit FF_EMERG = false) :
     overlapScan (mkEntry s.now fm).effectivePriority (ofWire fm.mtch) s.table =
       (abs s).flows.any (fun g => g.rank == (newFlow s.now fm).rank && overlaps g.mtch fm.mtch) := by
   rw [overlapScan_sorted _ _ _ hi.sorted]
@@ -285,22 +275,10 @@ theorem overlap_abs (s : State) (fm : FlowModMsg) (hi : Inv s) (hm : MsgOk fm) (
   have hrank : (e.effectivePriority == (mkEntry s.now fm).effectivePriority) = ((absEntry e).rank == (newFlow s.now fm).rank) := by
     have := eff_eq_iff e (mkEntry s.now fm) hok hnew
     rw [Bool.eq_iff_iff]; simp only [beq_iff_eq]; exact this
-  rw [hrank, hok.wf, subsumes_code fm.mtch e.data.wire hm.mok hok.mok, subsumes_code e.data.wire fm.mtch hok.mok hm.mok]
-  by_cases hr : (absEntry e).rank = (newFlow s.now fm).rank
-  · have hb : ((absEntry e).rank == (newFlow s.now fm).rank) = true := by simpa using hr
-    simp only [hb, Bool.true_and]
-    show _ = overlaps e.data.wire fm.mtch
-    cases ho : overlaps e.data.wire fm.mtch
-    · cases h1 : subsumes fm.mtch e.data.wire
-      · cases h2 : subsumes e.data.wire fm.mtch
-        · rfl
-        · rw [overlaps_of_subsumes h2] at ho; cases ho
-      · rw [overlaps_comm, overlaps_of_subsumes h1] at ho; cases ho
-    · rcases hv e hmem hr ho with h | h <;> simp [h]
-  · have hb : ((absEntry e).rank == (newFlow s.now fm).rank) = false := by simpa using hr
-    simp [hb]
+  rw [hrank, hok.wf, overlaps_code e.data.wire fm.mtch hok.mok hm.mok]
+  rfl
 
-theorem flowModAdd_refines (s : State) (fm : FlowModMsg) (hi : Inv s) (hm : MsgOk fm) (hv : OverlapAgree s (.flowMod fm))
+theorem flowModAdd_refines (s : State) (fm : FlowModMsg) (hi : Inv s) (hm : MsgOk fm)
     (hbase : (addBase s fm).map absEntry = withoutSame (abs s) fm) :
     abs (flowModAdd s fm).1 = (Spec.add (abs s) fm).1 ∧ (flowModAdd s fm).2.map absOut = (Spec.add (abs s) fm).2 := by
   unfold flowModAdd Spec.add
@@ -315,7 +293,7 @@ theorem flowModAdd_refines (s : State) (fm : FlowModMsg) (hi : Inv s) (hm : MsgO
       cases hC : fm.flags.testBit FF_CHECK_OVERLAP
       · rfl
       · simp only [Bool.true_and]
-        exact overlap_abs s fm hi hm hE' (hv hC)
+        exact overlap_abs s fm hi hm hE'
     rw [hov]
     by_cases hO : (fm.flags.testBit FF_CHECK_OVERLAP &&
         (abs s).flows.any (fun g => g.rank == (newFlow (abs s).now fm).rank && overlaps g.mtch fm.mtch)) = true
@@ -342,8 +320,7 @@ theorem flowModAdd_refines (s : State) (fm : FlowModMsg) (hi : Inv s) (hm : MsgO
 
 /-! ## MODIFY -/
 
-theorem flowModModify_refines (s : State) (fm : FlowModMsg) (strict : Bool) (hi : Inv s) (hm : MsgOk fm)
-    (hv : OverlapAgree s (.flowMod fm)) (hc : fm.cmd ≠ .add) :
+theorem flowModModify_refines (s : State) (fm : FlowModMsg) (strict : Bool) (hi : Inv s) (hm : MsgOk fm) (hc : fm.cmd ≠ .add) :
     abs (flowModModify s fm strict).1 = (Spec.modify (abs s) fm strict).1 ∧
     (flowModModify s fm strict).2.map absOut = (Spec.modify (abs s) fm strict).2 := by
   unfold flowModModify Spec.modify
@@ -361,7 +338,7 @@ theorem flowModModify_refines (s : State) (fm : FlowModMsg) (strict : Bool) (hi 
     intro e he
     simp only [Function.comp, hsel e he]
     split <;> rfl
-  · exact flowModAdd_refines s fm hi hm hv
+  · exact flowModAdd_refines s fm hi hm
       (addBase_abs_modify s fm strict hc (by simpa [hflows] using ‹¬ (List.map absEntry s.table).any _ = true›))
 
 /-! ## DELETE -/
@@ -467,18 +444,18 @@ theorem flowStat_abs (now : Nat) (e : FEntry) : absStat (flowStat now e) = statO
 
 /-! ## one step, the invariant, histories -/
 
-theorem step_refines (s : State) (op : Op) (hi : Inv s) (ho : OpOk op) (hv : OverlapAgree s op) :
+theorem step_refines (s : State) (op : Op) (hi : Inv s) (ho : OpOk op) :
     abs (step s op).1 = (Spec.step (abs s) op).1 ∧ (step s op).2.map absOut = (Spec.step (abs s) op).2 := by
   cases op with
   | flowMod fm =>
     have hm : MsgOk fm := ho
     cases hc : fm.cmd
     · simp only [step, flowModStep, Spec.step, hc]
-      exact flowModAdd_refines s fm hi hm hv (addBase_abs_add s fm hi hm hc)
+      exact flowModAdd_refines s fm hi hm (addBase_abs_add s fm hi hm hc)
     · simp only [step, flowModStep, Spec.step, hc]
-      exact flowModModify_refines s fm false hi hm hv (by rw [hc]; decide)
+      exact flowModModify_refines s fm false hi hm (by rw [hc]; decide)
     · simp only [step, flowModStep, Spec.step, hc]
-      exact flowModModify_refines s fm true hi hm hv (by rw [hc]; decide)
+      exact flowModModify_refines s fm true hi hm (by rw [hc]; decide)
     · simp only [step, flowModStep, Spec.step, hc]
       exact flowModDelete_refines s fm false hi hm
     · simp only [step, flowModStep, Spec.step, hc]
@@ -566,7 +543,7 @@ theorem step_inv (s : State) (op : Op) (hi : Inv s) (ho : OpOk op) : Inv (step s
 /-- every event of the history satisfies its hypotheses in the state it is applied to -/
 def HistOk (s : State) : List Op → Prop
   | [] => True
-  | op :: ops => OpOk op ∧ OverlapAgree s op ∧ HistOk (step s op).1 ops
+  | op :: ops => OpOk op ∧ HistOk (step s op).1 ops
 
 theorem run_refines (s : State) (ops : List Op) (hi : Inv s) (h : HistOk s ops) :
     abs (run s ops).1 = (Spec.run (abs s) ops).1 ∧
@@ -574,11 +551,167 @@ theorem run_refines (s : State) (ops : List Op) (hi : Inv s) (h : HistOk s ops) 
   induction ops generalizing s with
   | nil => exact ⟨rfl, rfl, hi⟩
   | cons op ops ih =>
-    obtain ⟨ho, hv, hrest⟩ := h
-    obtain ⟨r1, r2⟩ := step_refines s op hi ho hv
+    obtain ⟨ho, hrest⟩ := h
+    obtain ⟨r1, r2⟩ := step_refines s op hi ho
     obtain ⟨i1, i2, i3⟩ := ih (step s op).1 (step_inv s op hi ho) hrest
     simp only [run, Spec.run, List.map_cons]
     rw [← r1, ← r2]
     exact ⟨i1, by rw [i2], i3⟩
+
+/-! ## at most one entry per (match, priority) -/
+
+/-- the key the strict commands and ADD's replacement compare: `entry.match == match and entry.priority == priority` -/
+def sameKey (a b : FEntry) : Bool := eqMatch a.mtch b.mtch && a.priority == b.priority
+
+/-- no two entries of the table have equal match (`__eq__`) and equal priority -/
+def Uniq (t : Table EData) : Prop := t.Pairwise (fun a b => sameKey a b = false)
+
+theorem sameKey_symm {a b : FEntry} (h : sameKey a b = false) : sameKey b a = false := by
+  unfold sameKey at *
+  rw [eqMatch_comm, show (b.priority == a.priority) = (a.priority == b.priority) from by
+    rw [Bool.eq_iff_iff]; simp only [beq_iff_eq]; exact eq_comm]
+  exact h
+
+theorem uniq_of_keys {t t' : Table EData} (h : t'.map (fun e => (e.mtch, e.priority)) = t.map (fun e => (e.mtch, e.priority)))
+    (hu : Uniq t) : Uniq t' := by
+  have key : ∀ l : Table EData, Uniq l ↔ (l.map (fun e => (e.mtch, e.priority))).Pairwise
+      (fun x y => (eqMatch x.1 y.1 && x.2 == y.2) = false) := by
+    intro l; unfold Uniq sameKey; rw [List.pairwise_map]
+  rw [key] at hu ⊢
+  rw [h]; exact hu
+
+theorem keys_map (f : FEntry → FEntry) (hf : ∀ e, (f e).mtch = e.mtch ∧ (f e).priority = e.priority) (t : Table EData) :
+    (t.map f).map (fun e => (e.mtch, e.priority)) = t.map (fun e => (e.mtch, e.priority)) := by
+  rw [List.map_map]
+  apply List.map_congr_left
+  intro e _
+  simp [Function.comp, (hf e).1, (hf e).2]
+
+theorem keys_modifyFirst (p : FEntry → Bool) (f : FEntry → FEntry) (hf : ∀ e, (f e).mtch = e.mtch ∧ (f e).priority = e.priority)
+    (t : Table EData) : (modifyFirst p f t).map (fun e => (e.mtch, e.priority)) = t.map (fun e => (e.mtch, e.priority)) := by
+  induction t with
+  | nil => rfl
+  | cons x r ih =>
+    simp only [modifyFirst]
+    split
+    · simp [(hf x).1, (hf x).2]
+    · simp [ih]
+
+theorem flowModAdd_uniq (s : State) (fm : FlowModMsg) (hu : Uniq s.table)
+    (hnew : ∀ e ∈ addBase s fm, sameKey (mkEntry s.now fm) e = false) : Uniq (flowModAdd s fm).1.table := by
+  have hb : Uniq (addBase s fm) := hu.sublist (addBase_sublist s fm)
+  unfold flowModAdd flowModFailed
+  split
+  · exact hu
+  · split
+    · exact hu
+    · split
+      · exact hb
+      · show Uniq (addEntry (mkEntry s.now fm) (addBase s fm))
+        unfold Uniq
+        rw [(addEntry_perm (mkEntry s.now fm) (addBase s fm)).pairwise_iff (fun h => sameKey_symm h)]
+        exact List.pairwise_cons.mpr ⟨hnew, hb⟩
+
+theorem addBase_fresh_add (s : State) (fm : FlowModMsg) (hc : fm.cmd = .add) :
+    ∀ e ∈ addBase s fm, sameKey (mkEntry s.now fm) e = false := by
+  intro e he
+  unfold addBase at he
+  simp only [hc, List.mem_filter, Bool.not_eq_true', isMatchedBy, if_true, Bool.true_and] at he
+  apply sameKey_symm
+  exact he.2
+
+theorem step_uniq (s : State) (op : Op) (hu : Uniq s.table) : Uniq (step s op).1.table := by
+  have modCase : ∀ fm strict, fm.cmd ≠ .add → Uniq (flowModModify s fm strict).1.table := by
+    intro fm strict hc
+    unfold flowModModify
+    simp only
+    split
+    · apply uniq_of_keys _ hu
+      apply keys_map
+      intro e
+      split <;> exact ⟨rfl, rfl⟩
+    · rename_i hnone
+      apply flowModAdd_uniq s fm hu
+      have hb : addBase s fm = s.table := by
+        unfold addBase
+        split
+        · exact absurd ‹fm.cmd = Cmd.add› hc
+        · rfl
+      rw [hb]
+      intro e he
+      have hn : isMatchedBy e (ofWire fm.mtch) fm.priority strict none = false := by
+        have := List.any_eq_false.mp (by simpa using hnone) e he
+        simpa using this
+      apply sameKey_symm
+      unfold sameKey
+      unfold isMatchedBy at hn
+      cases strict
+      · simp only [Bool.false_eq_true, if_false, Bool.true_and] at hn
+        have : eqMatch e.mtch (ofWire fm.mtch) = false := by
+          cases hq : eqMatch e.mtch (ofWire fm.mtch)
+          · rfl
+          · rw [matchesWith_of_eqMatch true (eqMatch_symm hq)] at hn; cases hn
+        show (eqMatch e.mtch (ofWire fm.mtch) && e.priority == fm.priority) = false
+        simp [this]
+      · simp only [if_true, Bool.true_and] at hn
+        exact hn
+  cases op with
+  | flowMod fm =>
+    cases hc : fm.cmd
+    · simp only [step, flowModStep, hc]
+      exact flowModAdd_uniq s fm hu (addBase_fresh_add s fm hc)
+    · simp only [step, flowModStep, hc]
+      exact modCase fm false (by rw [hc]; decide)
+    · simp only [step, flowModStep, hc]
+      exact modCase fm true (by rw [hc]; decide)
+    · simp only [step, flowModStep, hc]
+      exact hu.sublist List.filter_sublist
+    · simp only [step, flowModStep, hc]
+      exact hu.sublist List.filter_sublist
+  | packet p port len =>
+    simp only [step, packetStep]
+    split
+    · exact uniq_of_keys (keys_modifyFirst _ (touch len s.now) (fun e => ⟨rfl, rfl⟩) _) hu
+    · exact hu
+  | advance dt => exact hu
+  | sweep => exact hu.sublist List.filter_sublist
+  | flowStats m o => exact hu
+  | aggStats m o => exact hu
+
+theorem run_uniq (s : State) (ops : List Op) (hu : Uniq s.table) : Uniq (run s ops).1.table := by
+  induction ops generalizing s with
+  | nil => exact hu
+  | cons op ops ih => exact ih _ (step_uniq s op hu)
+
+/-! ## the hypotheses are decidable (used for the concrete witnesses and non-vacuity examples) -/
+
+instance (r : OfMatch) : Decidable (PrereqExact r) := by unfold PrereqExact; exact inferInstance
+
+theorem matchOk_iff (r : OfMatch) : MatchOk r ↔
+    (PrereqExact r ∧ r.nwTos % 4 = 0 ∧ r.wildcards < 2 ^ 22 ∧
+     (Spec.exact r = true → r.dlType = 0x0800 ∧ isL4Proto r.nwProto = true) ∧
+     (Spec.srcIgn r < 32 → r.nwSrc % 2 ^ Spec.srcIgn r = 0) ∧ (Spec.dstIgn r < 32 → r.nwDst % 2 ^ Spec.dstIgn r = 0)) :=
+  ⟨fun h => ⟨h.prereq, h.tos, h.width, h.exactL4, h.hostSrc, h.hostDst⟩, fun ⟨a, b, c, d, e, f⟩ => ⟨a, b, c, d, e, f⟩⟩
+
+instance (r : OfMatch) : Decidable (MatchOk r) := decidable_of_iff _ (matchOk_iff r).symm
+
+theorem msgOk_iff (fm : FlowModMsg) : MsgOk fm ↔ (MatchOk fm.mtch ∧ fm.priority ≤ 0xffff) :=
+  ⟨fun h => ⟨h.mok, h.prio⟩, fun ⟨a, b⟩ => ⟨a, b⟩⟩
+
+instance (fm : FlowModMsg) : Decidable (MsgOk fm) := decidable_of_iff _ (msgOk_iff fm).symm
+
+instance : (op : Op) → Decidable (OpOk op)
+  | .flowMod fm => inferInstanceAs (Decidable (MsgOk fm))
+  | .packet p _ _ => inferInstanceAs (Decidable (regular p = true ∧ pktTos p % 4 = 0))
+  | .flowStats m _ => inferInstanceAs (Decidable (MatchOk m ∧ ofWirePlain m = ofWire m))
+  | .aggStats m _ => inferInstanceAs (Decidable (MatchOk m ∧ ofWirePlain m = ofWire m))
+  | .advance _ => isTrue trivial
+  | .sweep => isTrue trivial
+
+instance instDecidableHistOk : (s : State) → (ops : List Op) → Decidable (HistOk s ops)
+  | _, [] => isTrue trivial
+  | s, op :: ops =>
+    have := instDecidableHistOk (step s op).1 ops
+    inferInstanceAs (Decidable (OpOk op ∧ HistOk (step s op).1 ops))
 
 end Pox.FlowMod
